@@ -68,3 +68,30 @@ From PKOCorr Require Import SetCorr SetMonitors SetMonSound.
 Theorem C09_set_monitor_sound : forall c : scase, m09 (set_obs_s c (SetCorr.model_run c)) = true.
 Proof. exact m09_sound. Qed.
 Print Assumptions C09_set_monitor_sound.
+
+(** The delegated part of the C09 check (m09d = C15Corr.m_pause: every phase object the pass obtained - controlled by
+    the ObjectSet, not being deleted, up to the phase named as failing - carries the ObjectSet's paused state or was
+    sent the pause patch). REFUTED as an acceptance claim over all cases: a pass that waits for its previous revision
+    (status.revision still 0) reads the phase objects named in status.remotePhases for the Paused condition without
+    patching them; on [x_requeue_case] the monitor raises a false alarm on the model itself. *)
+From PKOCorr Require Import SetMonSound2.
+Theorem C09_set_monitor_delegated_refuted :
+  exists c : scase, rev_before_remotes c = false /\ m09d (set_obs_s c (SetCorr.model_run c)) = false.
+Proof. exact m09d_refuted. Qed.
+Print Assumptions C09_set_monitor_delegated_refuted.
+
+(** Partial (excluded: active ObjectSets without a revision that nevertheless record, in status.remotePhases, the phase
+    object of one of their delegated phases - a state no run of the controller produces, since remote phases are
+    recorded by the phase loop, which runs only once the revision is set): otherwise the monitor accepts every pass of
+    the model. *)
+Theorem C09_set_monitor_delegated_sound_partial :
+  forall c : scase, rev_before_remotes c = true -> m09d (set_obs_s c (SetCorr.model_run c)) = true.
+Proof. exact m09d_sound_partial. Qed.
+Print Assumptions C09_set_monitor_delegated_sound_partial.
+
+Example C09_set_monitor_delegated_hypothesis_satisfiable :
+  rev_before_remotes x_pause_case = true /\
+  existsb (fun e => match e with SPhase (PPause 10001%N true _) => true | _ => false end)
+          (sc_events (set_obs_s x_pause_case (SetCorr.model_run x_pause_case))) = true.
+Proof. exact m09d_hypothesis_satisfiable. Qed.
+Print Assumptions C09_set_monitor_delegated_hypothesis_satisfiable.
